@@ -18,7 +18,8 @@ THEOREMS = [_T + n for n in (
     'C08_partial', 'C08_partial_left', 'C08_partial_limit', 'C08_partial_model', 'C08_partial_model_nolimit', 'C08_partial_model_inner', 'C08_partial_model_left', 'C08_partial_model_left_limit',
     'C08_witness_limit_where', 'C08_regression_limit_where', 'C08_limit_pushed_when_where_applied',
     'C08_limit_inner_sound_if_total', 'C08_limit_inner_sound_if_one_to_one', 'C08_offset_left_sound_if_at_most_one',
-    'C08_witness_offset_left', 'C08_T83_limit_left_left', 'C08_T81_third_table', 'C08_union_all_compositional', 'C08_union_distinct_compositional',
+    'C08_witness_offset_left', 'C08_markNullable_spec', 'C08_nullableSide_eq_chain', 'C08_chain3_push_first',
+    'C08_chain3_flag', 'C08_witness_chain3_isnull', 'C08_T83_limit_left_left', 'C08_T81_third_table', 'C08_union_all_compositional', 'C08_union_distinct_compositional',
     'C08_cte_compositional', 'C08_not_full')]
 ASSUME = [
     'SQL semantics of the theorems = MindsVerif.Sem (Int|Str|Null, 3-valued logic, list-of-rows tables, joins of every '
@@ -344,6 +345,65 @@ def corr_plan2(chk, world, n):
         chk.samples.append(dict(corr='plan2', sql=q.sql, driver_in=line, driver_out=o[:300]))
 
 
+# ----------------------------------------------------------------------------- chain correspondence (mark_nullable_tables)
+CHAIN_KINDS = {'JOIN': 'inner', 'INNER JOIN': 'inner', 'LEFT JOIN': 'left', 'LEFT OUTER JOIN': 'leftOuter',
+               'RIGHT JOIN': 'right', 'FULL JOIN': 'full', 'FULL OUTER JOIN': 'full'}
+CHAIN_TABLES = [('int1.ta', 'a'), ('int2.tc', 'b'), ('int3.te', 'c'), ('int1.tb', 'd'), ('int2.td', 'e')]
+
+
+def real_nullable(kinds):
+    """black box: `t.x IS NULL` is a top-level WHERE conjunct for every table of the chain; it is pushed into the fetch
+    of a table iff the planner does not regard that table as null-supplying"""
+    import itertools as it
+    from mindsdb_sql import parse_sql
+    from mindsdb_sql.planner import plan_query, steps as S
+    tabs = CHAIN_TABLES[:len(kinds) + 1]
+    frm = '%s AS %s' % tabs[0]
+    for i, k in enumerate(kinds):
+        # every table is joined to its predecessor or (alternating) to the first table
+        other = tabs[i][1] if i % 2 == 0 else tabs[0][1]
+        frm += ' %s %s AS %s ON %s.id = %s.id' % (k, tabs[i + 1][0], tabs[i + 1][1], tabs[i + 1][1], other)
+    sql = 'SELECT * FROM %s WHERE %s' % (frm, ' AND '.join('%s.x IS NULL' % a for _, a in tabs))
+    plan = plan_query(parse_sql(sql, 'mindsdb'), integrations=['int1', 'int2', 'int3'])
+    flags = []
+    for _, a in tabs:
+        f = [s for s in plan.steps if isinstance(s, S.FetchDataframeStep) and px.table_alias_of(s.query) == a]
+        if len(f) != 1:
+            return sql, 'fetches(%s)=%d' % (a, len(f))
+        pushed = any(str(c).replace('`', '').lower() == 'x is null' for c in cz.conjuncts(f[0].query.where))
+        flags.append('0' if pushed else '1')
+    return sql, 'nullable=' + ','.join(flags)
+
+
+def corr_chain(chk):
+    import itertools as it
+    lens = (1, 2, 3) if not chk.deep else (1, 2, 3, 4)
+    cases = [ks for n in lens for ks in it.product(sorted(CHAIN_KINDS), repeat=n)]
+    if 4 in lens:
+        rng = common.rng_for(chk.seed, 'C08/chain')
+        cases = [ks for ks in cases if len(ks) < 4] + rng.sample([ks for ks in cases if len(ks) == 4], 600)
+    lines = ['chain ' + ' '.join(CHAIN_KINDS[k] for k in ks) for ks in cases]
+    try:
+        outs = common.lean_run('C08', lines)
+    except Exception as e:
+        chk.oblige('corr:chain-nullable', 'correspondence', False, 'driver failed: %s' % e)
+        return
+    diverged, first = 0, None
+    dist = {}
+    for ks, o in zip(cases, outs):
+        chk.count(('chain', ks))
+        try:
+            sql, real = real_nullable(ks)
+        except Exception as e:
+            sql, real = ' '.join(ks), 'exc:%s:%s' % (type(e).__name__, str(e)[:80])
+        dist['tables=%d' % (len(ks) + 1)] = dist.get('tables=%d' % (len(ks) + 1), 0) + 1
+        if real != o:
+            diverged += 1
+            first = first or dict(sql=sql, kinds=list(ks), model=o, real=real)
+    chk.corr_result('chain-nullable(mark_nullable_tables over 2-5 table chains, black box via IS NULL pushdown)', len(cases),
+                    diverged, first, dist)
+
+
 # ----------------------------------------------------------------------------- seeds (exhaustive tiny databases)
 SEEDS = [
     ('names', 'SELECT * FROM int1.ta JOIN int2.tc ON ta.id = tc.id', None),
@@ -464,6 +524,7 @@ def run(chk):
     world = px.World(g.SCHEMA)
     # 1. Lean fragment: skeleton + semantics correspondence
     corr_plan2(chk, world, 600 if quick else 6000)
+    corr_chain(chk)
     deep = (not quick) or bool(chk.broken())
     # 2. impl-level probe
     dist = {}
@@ -479,7 +540,9 @@ def run(chk):
     done = 0
     for i in range(nq):
         q = g.gen_query(rng)
-        if 'ties' in q.feats:
+        if 'chain' in q.feats:
+            cs = (g.gen_contents_match(rng, q.tables, maxrows) for _ in range(nc + 4))
+        elif 'ties' in q.feats:
             cs = (g.gen_contents_ties(rng, q.tables, maxrows + 1) for _ in range(nc + 4))
         else:
             cs = (g.gen_contents(rng, q.tables, maxrows if rng.random() < 0.8 else maxrows - 1) for _ in range(nc))
